@@ -14,6 +14,9 @@ CLAIMS = {
          "custom SSA path-state + lockset + call-graph analysis", "DESIGN.md §3 C03"),
  "C04": ("Structural necessary conditions of consumer isolation: publisher call graph reaches no blocking operation nor any Consume; consume loop has recover->detach->close; discarding toggles only on key-frame edges under the right backlog comparison; limit constant 1000. Does not decide the numeric backlog bound.",
          "module-bounded call-graph reachability + SSA path-state", "DESIGN.md §3 C04"),
+
+ "C05": ("Structural necessary conditions of registry consistency decided on every path and call site: canonical keys only, delete-if-same, no Stream.Close while still registered, idle guard reads every consumer set, Regist retires the previous holder, Get returns only registry entries. Does not decide racing registrations or listings at an instant.",
+         "custom SSA path-state + dependence + who-may-call analysis", "DESIGN.md §3 C05"),
 }
 NA = {
  "C16": "pure input/output language equivalence of the pattern matcher over all pattern/path pairs: truth lives in string values, no structural clause implies it; deciding it needs exhaustive evaluation (execution), a different technique family",
